@@ -42,6 +42,10 @@ def main():
             if a.only and a.only not in name:
                 continue
             pid = name.split("-")[0]
+            mp0 = d + "meta.json"
+            if os.path.exists(mp0) and json.load(open(mp0)).get("neutralised_by"):
+                print(f"{name}: neutralised ({json.load(open(mp0))['neutralised_by'][:80]}...)")
+                continue
             patch = d + "patch_rebased.diff" if os.path.exists(d + "patch_rebased.diff") else d + "patch.diff"
             rc, out = sh(f"git apply {patch}", cwd=WT)
             if rc != 0:
